@@ -8,6 +8,8 @@ copy=True/False and repeatability; numeric (1e-8) for orthonormality, reproducti
 """
 from __future__ import annotations
 
+from fractions import Fraction
+
 import numpy as np
 
 from .. import common as C
@@ -57,6 +59,19 @@ def check_basis(ctx, kind, X, nm, idx, layout=None):
         layout = layout or rng.choice(["C", "C", "F", "T", "strided"])
         base["layout"] = layout
         Xin = laid_out(X, layout)
+        if kind == "identity":
+            # Identity keeps what it is given: the storage type of the examples, including integers a float64 cannot hold
+            # (time stamps in ns, counters, hashes) – "reproduces the first training examples exactly"
+            dt = rng.choice(["float64", "float64", "int64", "int32", "uint8", "float32", "big_int64", "big_int64"])
+            base["dtype"] = dt
+            if dt == "big_int64":
+                Xin = laid_out((np.round(X).astype(np.int64) + 1700000000000000000 + np.arange(X.size, dtype=np.int64).reshape(X.shape) * 1001), layout)
+            elif dt == "uint8":
+                Xin = laid_out(np.abs(np.round(X)).astype(np.uint8), layout)
+            elif dt != "float64":
+                Xin = laid_out(np.round(X).astype(dt), layout)
+            X = np.array(Xin, copy=True)       # what was handed over, in its own dtype
+            ctx.count("identity_dtype:" + dt)
         ctx.count("layout:" + layout)
         try:
             b.fit(Xin)
@@ -106,7 +121,9 @@ def check_basis(ctx, kind, X, nm, idx, layout=None):
     scale = 1 + float(np.max(np.abs(X)))
     tol = 1e-8 * scale * max(X.shape)
     if kind == "identity":
-        if not np.array_equal(full, X[:nmodes, :].T):
+        want = X[:nmodes, :].T
+        # compared value by value as exact Python numbers (numpy would first round big integers to float64 on both sides)
+        if full.shape != want.shape or any(Fraction(a) != Fraction(b) for a, b in zip(np.asarray(full).ravel().tolist(), want.ravel().tolist())):
             return bad("identity-exact", "Identity does not reproduce the first training examples exactly")
         inv = b.matrix_inverse()
         if not np.array_equal(inv, np.eye(nf)):
